@@ -13,7 +13,7 @@ Requests (one reply line each; lines meant for the C++ harness only are answered
   call <ctxdoc> <name> str <value|->          key(name, 'value') with a context node in document ctxdoc
   call <ctxdoc> <name> ns <argdoc> <pattern>  key(name, <all nodes of argdoc matching pattern>)
   file … / anything else known to the harness → ok
-  run …                                       → for every call, in order:  K=<as-written model> S=<specification> F=<which documented deviations (E,N) shape K>
+  run …                                       → for every call, in order:  K=<as-written model> S=<specification> F=<E when the regenerated FunctionKey guard shapes K, else ->
                                                  each `ERR` or a comma list of document-order numbers (`-` = empty)
 -/
 open XalanModel.C15 XalanModel.C15.Concrete
@@ -39,11 +39,11 @@ structure St where
 def St.doc (s : St) (k : Nat) : Doc := ((s.docs.find? fun p => p.1 = k).map (·.2)).getD default
 
 /-- the import tree below module `sid` (fuel = number of modules) -/
-def buildSheet (quirk : Bool) (s : St) (docs : Nat → Doc) : Nat → Nat → Sheet String CNode
+def buildSheet (s : St) (docs : Nat → Doc) : Nat → Nat → Sheet String CNode
   | 0, _ => Sheet.mk [] []
   | fuel + 1, sid =>
-    let own := (s.decls.filter fun d => d.1 = sid).map fun d => mkDecl quirk docs d.2.1 d.2.2.1 d.2.2.2
-    let kids := (s.sheets.filter fun p => p.2 = some sid).map fun p => buildSheet quirk s docs fuel p.1
+    let own := (s.decls.filter fun d => d.1 = sid).map fun d => mkDecl docs d.2.1 d.2.2.1 d.2.2.2
+    let kids := (s.sheets.filter fun p => p.2 = some sid).map fun p => buildSheet s docs fuel p.1
     Sheet.mk own kids
 
 def showList (l : List CNode) : String :=
@@ -57,12 +57,12 @@ def argOf (s : St) : CallArg → KeyArg
   | .str v => .str v
   | .ns k pat =>
     let d := s.doc k
-    .nodeset ((d.tree.docOrder.filter (matchPattern false d pat)).map (·.value))
+    .nodeset ((d.tree.docOrder.filter (matchPattern d pat)).map (·.value))
 
-/-- the environment of the transformation; `quirk` = pattern matching as the code behaves on the document node -/
-def envOf (s : St) (quirk : Bool) : Env String CNode Nat :=
+/-- the environment of the transformation -/
+def envOf (s : St) : Env String CNode Nat :=
   let docs : Nat → Doc := s.doc
-  let root := buildSheet quirk s docs (s.sheets.length + 1) 0
+  let root := buildSheet s docs (s.sheets.length + 1) 0
   { keyDeclarations := root.postConstruction, doc := fun k => (docs k).tree, idx := fun n => n.idx,
     isDoc := fun n => n.kind = .root }
 
@@ -70,23 +70,21 @@ def runAll (s : St) : String :=
   let skip := XalanModel.Generated.C15_FunctionKey.skipEmptyRefs
   let calls := s.calls.reverse
   let cs := calls.map fun c => ({ doc := c.doc, name := c.name, arg := argOf s c.arg } : Call String Nat)
-  -- the code as written (both documented deviations) and with one deviation removed at a time
-  let kFull := runCalls (envOf s true) skip [] cs
-  let kNoE := runCalls (envOf s true) false [] cs
-  let kNoN := runCalls (envOf s false) skip [] cs
-  let spec := envOf s false
+  let env := envOf s
+  -- the code as written (the guard as regenerated from FunctionKey.cpp) and without the guard
+  let kFull := runCalls env skip [] cs
+  let kNoE := runCalls env false [] cs
   let ss := calls.map fun c =>
     let vals := (argOf s c.arg).values
     -- specification: union over all string values of the argument; an undeclared name is an error
     -- (unless the argument is an empty node-set, where the result is empty whatever the name)
     if vals.isEmpty then some []
-    else if declared spec.keyDeclarations c.name then some (specKeyArg spec.keyDeclarations (spec.doc c.doc) c.name vals)
+    else if declared env.keyDeclarations c.name then some (specKeyArg env.keyDeclarations (env.doc c.doc) c.name vals)
     else none
-  let rows := List.zip kFull (List.zip ss (List.zip kNoE kNoN))
-  " ".intercalate (rows.map fun (k, sp, e, n) =>
+  let rows := List.zip kFull (List.zip ss kNoE)
+  " ".intercalate (rows.map fun (k, sp, e) =>
     let same (a b : Option (List CNode)) : Bool := showRes a == showRes b
-    let fl := (if same k e then "" else "E") ++ (if same k n then "" else "N")
-    s!"K={showRes k} S={showRes sp} F={if fl.isEmpty then "-" else fl}")
+    s!"K={showRes k} S={showRes sp} F={if same k e then "-" else "E"}")
 
 def step (s : St) : List String → St × String
   | ["case", _] => ({}, "ok")
